@@ -188,7 +188,40 @@ class Check:
         except subprocess.TimeoutExpired:
             return path, 0 if cand["v"].get("kind", "").endswith("HANG") else 5, "replay timeout"
 
+    _FIXED_ORACLE = {"C01": ("c01", "exec"), "C02": ("c02", "exec"), "C03": ("c03", "exec"), "C08": ("c08", None), "C09": ("c09", None),
+                     "C10": ("c10", "exec"), "C11": ("c11", "exec"), "C12": ("c12", "C-ascii"), "C04": ("c04", "exec")}
+
+    def rerun_fixed_witnesses(self):
+        """entries with status 'fixed' suppress nothing: their witnesses are a regression corpus for the property's concrete oracle"""
+        spec = self._FIXED_ORACLE.get(self.pid)
+        if not spec:
+            return
+        from . import oracles as _o
+        table = dict(_o.ORACLES)
+        try:
+            from . import oracles2 as _o2
+            table.update(_o2.ORACLES)
+        except ImportError:
+            pass
+        from .load import repo as _repo
+        n = 0
+        for e in self.known:
+            if e.get("status") != "fixed" or e.get("property") != self.pid or "witness" not in e:
+                continue
+            args = [e["witness"]] + ([spec[1]] if spec[1] else [])
+            try:
+                v = table[spec[0]](_repo().real, *args)
+            except Exception as err:  # noqa: BLE001
+                self.engine_errors.append({"fixed-witness": e["id"], "error": repr(err)[:200]})
+                continue
+            n += 1
+            if v is not None:
+                self.add_candidate({"oracle": spec[0], "args": args, "kwargs": {}, "v": v})
+        self.extra["fixed_witnesses_rerun"] = n
+        self.validated += n
+
     def finish(self):
+        self.rerun_fixed_witnesses()
         violations = 0
         known_hit: dict = {}
         not_reproduced = []
